@@ -401,3 +401,19 @@ def import_outbound_queue_rule(facts, rep, tier, cfg, rid):
             k += 1
             rep.bad(rid, v["key"], v["where"], v["msg"])
     rep.floor(rid, "outbound-queue obligations (S1)", k, 2)
+
+
+def import_constructor_rule(facts, rep, rid, names):
+    """Re-register C09.R8 (frame constructors store their arguments as they are) for the constructors a property depends on."""
+    import rules_c09
+    crate = facts.crate("penguin_mux")
+    rep.rule(rid, "the frame constructors this property relies on (%s) store each argument into the frame as it is (= C09.R8)" % ", ".join(names))
+    sub = type(rep)(rep.prop, rep.tier, rep.config)
+    rules_c09.check_constructors(facts, sub, crate)
+    for i in sub.instances:
+        if i["key"].split("/")[-1] in names:
+            rep.ok(rid, i["key"], i["where"], i["detail"], nontrivial=False)
+    for v in sub.violations:
+        k = v["key"].split("/", 1)[1]
+        if k.split("/")[-1] in names or "floor" in k:
+            rep.bad(rid, k, v["where"], v["msg"])
